@@ -341,9 +341,12 @@ carquet_status_t carquet_page_writer_add_values(
 
     switch (writer->type) {
         case CARQUET_PHYSICAL_BOOLEAN: {
+            /* PLAIN booleans are bit-packed over the whole page, so a batch
+             * whose size is not a multiple of 8 must not be padded to a byte
+             * boundary: keep one byte per value here and pack in finalize. */
             const uint8_t* bools = (const uint8_t*)values;
-            status = carquet_encode_plain_boolean(bools, num_non_null,
-                                                   &writer->values_buffer);
+            status = carquet_buffer_append(&writer->values_buffer, bools,
+                                            (size_t)num_non_null);
             break;
         }
 
@@ -518,9 +521,21 @@ carquet_status_t carquet_page_writer_finalize(
         }
     }
 
-    carquet_buffer_append(&uncompressed,
-                           writer->values_buffer.data,
-                           writer->values_buffer.size);
+    if (writer->type == CARQUET_PHYSICAL_BOOLEAN) {
+        if (writer->values_buffer.size > 0) {
+            carquet_status_t val_status = carquet_encode_plain_boolean(
+                writer->values_buffer.data,
+                (int64_t)writer->values_buffer.size, &uncompressed);
+            if (val_status != CARQUET_OK) {
+                carquet_buffer_destroy(&uncompressed);
+                return val_status;
+            }
+        }
+    } else {
+        carquet_buffer_append(&uncompressed,
+                               writer->values_buffer.data,
+                               writer->values_buffer.size);
+    }
 
     *uncompressed_size = (int32_t)uncompressed.size;
 
@@ -628,7 +643,11 @@ carquet_status_t carquet_page_writer_finalize(
 
 size_t carquet_page_writer_estimated_size(const carquet_page_writer_t* writer) {
     if (!writer) return 0;
-    return writer->values_buffer.size +
+    size_t values_size = writer->values_buffer.size;
+    if (writer->type == CARQUET_PHYSICAL_BOOLEAN) {
+        values_size = (values_size + 7) / 8;  /* bit-packed at finalize */
+    }
+    return values_size +
            writer->def_levels_buffer.size +
            writer->rep_levels_buffer.size + 64;  /* Header overhead */
 }
